@@ -726,6 +726,20 @@ class World:
 
             t.connect = connect
 
+        if ep == 'c' and self.opts.get('close_raises'):
+            # a transport whose close() complains (the peer hung up first / it was never opened): it releases what it holds and then raises
+            # something that is neither OSError nor a transport error - as the library's own aiohttp client transport does
+            orig_close = t.close
+
+            async def close():
+                try:
+                    await orig_close()
+                except Exception:
+                    pass
+                raise RuntimeError('transport already closed')
+
+            t.close = close
+
     def _cell(self, ep):
         cell = {'ep': ep}
         self._ep_cells.setdefault(ep, []).append(cell)
@@ -859,6 +873,15 @@ class World:
             if o.get('honor_lease_c'):
                 kw['honor_lease'] = True
                 kw['request_queue_size'] = o.get('lease_queue', 0)
+            if o.get('client_lease_publisher'):
+                # the client application issues leases of its own (to a server that asks for them); whether the CLIENT honours leases -
+                # the flag in its SETUP - is a separate setting
+                from rsocket.lease import LeasePublisher
+
+                class _ClientLeases(LeasePublisher):
+                    def subscribe(self_, subscriber):
+                        self.client_lease_sub = subscriber
+                kw['lease_publisher'] = _ClientLeases()
             if o.get('setup_payload'):
                 pid, p = self.payloads.make(*o['setup_payload'])
                 kw['setup_payload'] = p
